@@ -1,13 +1,16 @@
 """C09 - secondary-index answers equal a scan of the live documents.
 
-spec/kvindex/KVIndex.tla is the oracle: state = registered field paths + live documents, the
+spec/kvindex/KVIndex.tla is the oracle: state = registered field paths + live documents + the
+<<document, path>> pairs whose value is OPEN (the path was removed, and possibly registered again,
+after the document was added: the property does not say whether the index reports such a value), the
 queries are brute-force scans.  TLC is used twice per configuration:
   generation  all histories of AddField/RemoveField/AddDoc(insert or replace)/RemoveDoc up to a
               length bound (exhaustive cfgs), or random walks (-simulate) for long histories; every
               history is printed with the abstract state after each step;
-  oracle      for every abstract state the histories visit TLC prints the answer of every query
-              (ids per term, terms, counts, min, max, range counts, ascending listing) for every
-              field/term/range of the universe.
+  oracle      for every abstract state the histories visit TLC prints the accepted answers of every
+              query (ids per term, terms, counts, min, max, range counts, ascending listing) for
+              every field/term/range of the universe: the scan over the carriers whose value is firm
+              plus each subset of the open ones - exactly one answer where nothing is open.
 harness/kvidx replays every history on kvindex.NewIndex over a real Badger store (emptied before
 each history) and calls every public query method after the steps selected by an observation
 schedule: after every step (the count queries write counters back, so this is one family of
@@ -27,8 +30,15 @@ def _obj(x):
 
 
 def norm_state(s):
+    """fields, docs and the open <<doc, path>> pairs (see KVIndex.tla: values the index may or may not report)"""
     docs = _obj(s.get("docs"))
-    return dict(fields=sorted(s.get("fields") or []), docs={d: _obj(v) for d, v in docs.items()})
+    return dict(fields=sorted(s.get("fields") or []), docs={d: _obj(v) for d, v in docs.items()},
+                open=sorted([str(p[0]), str(p[1])] for p in (s.get("open") or [])))
+
+
+def open_of(st, registered_only=True):
+    """the open pairs of a state (by default those under a registered path: the ones a query can meet)"""
+    return [p for p in st.get("open", []) if not registered_only or p[1] in st["fields"]]
 
 
 def skey(s):
@@ -54,9 +64,10 @@ def tla_fun(items):
 
 
 def tla_state(s):
-    return "[fields |-> {%s}, docs |-> %s]" % (
+    return "[fields |-> {%s}, docs |-> %s, open |-> {%s}]" % (
         ", ".join(json.dumps(f) for f in s["fields"]),
-        tla_fun((d, tla_fun((p, tla_term(t)) for p, t in sorted(v.items()))) for d, v in sorted(s["docs"].items())))
+        tla_fun((d, tla_fun((p, tla_term(t)) for p, t in sorted(v.items()))) for d, v in sorted(s["docs"].items())),
+        ", ".join("<<%s, %s>>" % (json.dumps(d), json.dumps(f)) for d, f in s.get("open", [])))
 
 
 def states_module(states):
@@ -131,78 +142,144 @@ def cmp_counts(method, got, want):
     return None
 
 
-def compare_field(x, b, known_ids):
-    """x: oracle answers for one field, b: harness body for it, known_ids: the document ids of the
-    universe.  Returns the list of differing queries as (method, shape, detail) in a fixed priority
-    order (root cause first)."""
-    out = []
+class View:
+    """One accepted answer set of a field: the scan over the firm carriers plus one subset of the open ones."""
 
-    def add(p, detail):
-        if p:
-            out.append((p[0], p[1], detail))
+    def __init__(self, x):
+        self.x = x
+        self.ids = {tk(r["t"]): set(r["ids"]) for r in x["match"]}
+        self.terms = {tk(t) for t in x["terms"]}
+        self.ranges = {(r["lo"], r["hi"]): r for r in x["ranges"]}
+        self.size = sum(len(v) for v in self.ids.values())
 
+
+def field_queries(b, known_ids):
+    """b: harness body of one field.  Yields (method, check) per query CALL in a fixed priority order (root cause
+    first); check(view) returns None if the call's answer is the one of that view, else (shape, detail)."""
+
+    def q_match(t, ids):
+        def check(v):
+            w = v.ids.get(tk(t))
+            if w is None:
+                raise Inconclusive("oracle has no match answer for term %s" % t)
+            d = dict(term=t, got=ids, want=sorted(w))
+            if any(i not in known_ids for i in ids):
+                return ("ids-of-no-document(%s-term)" % ("number" if t[0] == "n" else "string"), d)
+            p = cmp_set("GetTermMatch", ids, w, "stale-ids", "missing-ids")
+            return (p[1], d) if p else None
+        return check
+
+    def q_match1(t, ids):
+        def check(v):
+            w = v.ids[tk(t)]
+            if len(ids) != min(1, len(w)) or not set(ids) <= w:
+                return ("wrong-ids", dict(term=t, got=ids, want_subset_of=sorted(w)))
+            return None
+        return check
+
+    def q_terms(method, got):
+        def check(v):
+            p = cmp_set(method, [tk(t) for t in got], v.terms, "stale-term", "missing-term")
+            return (p[1], dict(got=got, want=v.x["terms"])) if p else None
+        return check
+
+    def q_counts(method, got, key):
+        def check(v):
+            p = cmp_counts(method, got, v.x[key])
+            return (p[1], dict(got=got, want=v.x[key])) if p else None
+        return check
+
+    def q_numbers(gn):
+        def check(v):
+            wn = list(v.x["numbers"])
+            if sorted(map(str, gn)) != sorted(map(str, wn)):
+                ge, we = list(gn), list(wn)
+                for e in list(ge):
+                    if e in we:
+                        ge.remove(e)
+                        we.remove(e)
+                shape = "stale+missing" if ge and we else ("stale-entries" if ge else "missing-entries")
+                return (shape, dict(got=gn, want=wn))
+            if gn != wn:
+                return ("not-ascending", dict(got=gn, want=wn))
+            return None
+        return check
+
+    def q_minmax(key, got):
+        def check(v):
+            # on a field without numbers the result is not compared
+            if v.x["hasnum"] and got != v.x[key]:
+                return ("wrong-value", dict(got=got, want=v.x[key], numbers=list(v.x["numbers"])))
+            return None
+        return check
+
+    def q_range(lo, hi, got):
+        def check(v):
+            r = v.ranges.get((lo, hi))
+            if r is None:
+                raise Inconclusive("oracle has no range answer for %s..%s" % (lo, hi))
+            inner = {e["k"]: e["c"] for e in r["in"]}
+            edge = {e["k"]: e["c"] for e in r["edge"]}
+            g = {}
+            shape = None
+            for k, c in got:
+                if k in g:
+                    shape = "duplicate-number"
+                g[k] = c
+            if shape is None:
+                if any(k not in g for k in inner):
+                    shape = "missing-number"
+                elif any(k not in inner and k not in edge for k in g):
+                    shape = "out-of-range-or-stale-number"
+                elif any(g[k] != (inner.get(k, edge.get(k))) for k in g):
+                    shape = "wrong-count"
+            return (shape, dict(lo=lo, hi=hi, got=got, inside=r["in"], at_limits_open=r["edge"])) if shape else None
+        return check
+
+    for t, ids in b["match"]:
+        yield "GetTermMatch", q_match(t, ids)
+    for t, ids in b["match1"]:
+        yield "GetTermMatch(maxCount=1)", q_match1(t, ids)
+    yield "FieldTerms", q_terms("FieldTerms", b["terms"])
+    yield "FieldStringTermCounts", q_counts("FieldStringTermCounts", b["scounts"], "scounts")
+    yield "FieldTermCounts", q_counts("FieldTermCounts", b["counts"], "counts")
+    yield "FieldTermCounts(second call)", q_counts("FieldTermCounts(second call)", b["counts2"], "counts")
+    yield "FieldTerms(after counts)", q_terms("FieldTerms(after counts)", b.get("terms2", []))
+    yield "FieldNumbers", q_numbers(list(b["numbers"]))
+    yield "FieldTermNumberMin", q_minmax("min", b["min"])
+    yield "FieldTermNumberMax", q_minmax("max", b["max"])
+    for lo, hi, got in b["ranges"]:
+        yield "FieldTermNumberRange", q_range(lo, hi, got)
+
+
+def compare_field(acc, b, known_ids):
+    """acc: what the oracle accepts for one field - {firm, open, alts}: the carriers whose value must be reported,
+    the carriers whose value may be, and the answers of every query for every view firm + (subset of open).
+    b: harness body for the field.  A query call agrees if its answer is the one of SOME view (each call on its
+    own: the index is not asked to treat an open value alike in all its queries); without open values there is
+    exactly one view and the comparison is exact.  Returns the differing calls as (method, shape, detail)."""
     if "hang" in b:
         return [(b["hang"]["method"], "never-returns", b["hang"])]
-    want_ids = {tk(r["t"]): set(r["ids"]) for r in x["match"]}
-    for t, ids in b["match"]:
-        w = want_ids.get(tk(t))
-        if w is None:
-            raise Inconclusive("oracle has no match answer for term %s" % t)
-        if any(i not in known_ids for i in ids):
-            add(("GetTermMatch", "ids-of-no-document(%s-term)" % ("number" if t[0] == "n" else "string")),
-                dict(term=t, got=ids, want=sorted(w)))
-        else:
-            add(cmp_set("GetTermMatch", ids, w, "stale-ids", "missing-ids"), dict(term=t, got=ids, want=sorted(w)))
-    for t, ids in b["match1"]:
-        w = want_ids[tk(t)]
-        if len(ids) != min(1, len(w)) or not set(ids) <= w:
-            add(("GetTermMatch(maxCount=1)", "wrong-ids"), dict(term=t, got=ids, want_subset_of=sorted(w)))
-    wt = {tk(t) for t in x["terms"]}
-    add(cmp_set("FieldTerms", [tk(t) for t in b["terms"]], wt, "stale-term", "missing-term"),
-        dict(got=b["terms"], want=x["terms"]))
-    add(cmp_counts("FieldStringTermCounts", b["scounts"], x["scounts"]), dict(got=b["scounts"], want=x["scounts"]))
-    add(cmp_counts("FieldTermCounts", b["counts"], x["counts"]), dict(got=b["counts"], want=x["counts"]))
-    add(cmp_counts("FieldTermCounts(second call)", b["counts2"], x["counts"]), dict(got=b["counts2"], want=x["counts"]))
-    add(cmp_set("FieldTerms(after counts)", [tk(t) for t in b.get("terms2", [])], wt, "stale-term", "missing-term"),
-        dict(got=b.get("terms2"), want=x["terms"]))
-    gn, wn = list(b["numbers"]), list(x["numbers"])
-    if sorted(map(str, gn)) != sorted(map(str, wn)):
-        ge, we = list(gn), list(wn)
-        for v in list(ge):
-            if v in we:
-                ge.remove(v)
-                we.remove(v)
-        shape = "stale+missing" if ge and we else ("stale-entries" if ge else "missing-entries")
-        add(("FieldNumbers", shape), dict(got=gn, want=wn))
-    elif gn != wn:
-        add(("FieldNumbers", "not-ascending"), dict(got=gn, want=wn))
-    if x["hasnum"]:
-        if b["min"] != x["min"]:
-            add(("FieldTermNumberMin", "wrong-value"), dict(got=b["min"], want=x["min"], numbers=wn))
-        if b["max"] != x["max"]:
-            add(("FieldTermNumberMax", "wrong-value"), dict(got=b["max"], want=x["max"], numbers=wn))
-    wr = {(r["lo"], r["hi"]): r for r in x["ranges"]}
-    for lo, hi, got in b["ranges"]:
-        r = wr.get((lo, hi))
-        if r is None:
-            raise Inconclusive("oracle has no range answer for %s..%s" % (lo, hi))
-        inner = {e["k"]: e["c"] for e in r["in"]}
-        edge = {e["k"]: e["c"] for e in r["edge"]}
-        g = {}
-        shape = None
-        for k, c in got:
-            if k in g:
-                shape = "duplicate-number"
-            g[k] = c
-        if shape is None:
-            if any(k not in g for k in inner):
-                shape = "missing-number"
-            elif any(k not in inner and k not in edge for k in g):
-                shape = "out-of-range-or-stale-number"
-            elif any(g[k] != (inner.get(k, edge.get(k))) for k in g):
-                shape = "wrong-count"
-        if shape:
-            add(("FieldTermNumberRange", shape), dict(lo=lo, hi=hi, got=got, inside=r["in"], at_limits_open=r["edge"]))
+    views = sorted((View(x) for x in acc["alts"]), key=lambda v: (v.size, skey(v.x)))
+    if not views or (not acc["open"] and len(views) != 1):
+        raise Inconclusive("oracle printed %d views for a field with open carriers %s" % (len(views), acc["open"]))
+    out = []
+    for method, check in field_queries(b, known_ids):
+        best = None
+        for v in views:
+            p = check(v)
+            if p is None:
+                best = None
+                break
+            # reported against the view that explains most: one-sided shapes before mixed ones, then the smallest view
+            if best is None or ("+" in best[0] and "+" not in p[0]):
+                best = p
+        if best:
+            detail = best[1]
+            if acc["open"]:
+                detail = dict(detail, must_report=sorted(acc["firm"]), may_report=sorted(acc["open"]),
+                              want_is="the accepted answer nearest to the one got; none of the %d accepted answers matches" % len(views))
+            out.append((method, best[0], detail))
     return out
 
 
@@ -353,12 +430,21 @@ def nontrivial(b):
     return False
 
 
+def replaces(b):
+    return any(op["op"] == "AddDoc" and k > 0 and op["d"] in b.states[k - 1][1]["docs"] for k, op in enumerate(b.steps))
+
+
+def meets_open(b):
+    """some observed state has an open value under a registered path"""
+    return any(b.obs[k] not in (False, 0, 2) and st and open_of(st) for k, (sk, st) in enumerate(b.states))
+
+
 def corrupt_answers(answers):
     """self-test of the binding: falsify one expected count"""
     for k, x in answers.items():
-        for f, a in x.items():
-            if a["counts"]:
-                a["counts"][0]["c"] += 1
+        for f, acc in x.items():
+            if not acc["open"] and acc["alts"][0]["counts"]:
+                acc["alts"][0]["counts"][0]["c"] += 1
                 return
 
 
@@ -373,12 +459,14 @@ def replay_and_compare(ctx, name, universe, behaviours, answers, emb="halves", j
     outs, defs = execute(ctx, name, universe, behaviours, emb, jobs=jobs, qtimeout=qtimeout, timeout=timeout, via=via)
     cmpr = Comparer(answers, defs, universe)
     found = {}  # signature -> [count, [(length, behaviour index)]]
-    observations = nt = 0
+    observations = nt = mo = 0
     for i, b in enumerate(behaviours):
         first, nobs = first_divergence(b, outs[i], cmpr, emb, via)
         observations += nobs
         if nontrivial(b):
             nt += 1
+        if meets_open(b):
+            mo += 1
         if first:
             ent = found.setdefault(first[0], [0, []])
             ent[0] += 1
@@ -411,7 +499,7 @@ def replay_and_compare(ctx, name, universe, behaviours, answers, emb="halves", j
         if lost:
             raise Inconclusive("divergences seen in the shared store did not reproduce on a fresh store: %s" % lost)
     nq = len(universe["terms"]) + 8 + len(universe["ranges"])
-    return dict(behaviours=len(behaviours), observations=observations, nontrivial=nt,
+    return dict(behaviours=len(behaviours), observations=observations, nontrivial=nt, met_open=mo,
                 queries=observations * nq * max(1, len(universe["fields"])), divergent={k: v[0] for k, v in found.items()})
 
 
@@ -432,10 +520,18 @@ def gen_exhaustive(ctx, cfg):
         states.setdefault(k, s)
         by_h[json.dumps(h, sort_keys=True)] = (h, k)
         maxlen = max(maxlen, len(h))
+        # a cfg that prints only some histories ("closedhist") gives the states after every step with each of them
+        for j, s in enumerate(n.get("ss") or []):
+            s = norm_state(s)
+            k = skey(s)
+            states.setdefault(k, s)
+            by_h.setdefault(json.dumps(h[:j + 1], sort_keys=True), (None, k))
     del nodes
     behaviours = []
     full_seen = set()
     for hk, (h, k) in by_h.items():
+        if h is None:
+            continue  # a prefix that is not itself one of the printed histories
         sts = []
         for j in range(1, len(h) + 1):
             kk = by_h[json.dumps(h[:j], sort_keys=True)][1]
@@ -455,7 +551,8 @@ def gen_exhaustive(ctx, cfg):
             behaviours.append(Beh(h, sts, obs, "after every step"))
         if len(h) >= 2:
             behaviours.append(Beh(h, sts, obs_last(len(h)), "only after the last step"))
-    return uni, states, behaviours, dict(histories=len(by_h), maxlen=maxlen, tlc_states=res.distinct,
+    nh = sum(1 for v in by_h.values() if v[0] is not None)
+    return uni, states, behaviours, dict(histories=nh, maxlen=maxlen, tlc_states=res.distinct,
                                          step_kinds=step_kinds(behaviours))
 
 
@@ -504,7 +601,7 @@ def step_kinds(behaviours):
         seen.add(id(b.steps))
         for k, op in enumerate(b.steps):
             kind = op["op"]
-            prev = b.states[k - 1][1] if k > 0 else dict(fields=[], docs={})
+            prev = b.states[k - 1][1] if k > 0 else dict(fields=[], docs={}, open=[])
             if prev is None:
                 continue
             if kind == "AddDoc":
@@ -513,6 +610,11 @@ def step_kinds(behaviours):
                 kind = "RemoveDoc(live)" if op["d"] in prev["docs"] else "RemoveDoc(absent)"
             elif kind == "RemoveField":
                 kind = "RemoveField(carried)" if any(op["f"] in v for v in prev["docs"].values()) else "RemoveField(unused)"
+            elif kind == "AddField":
+                # a path registered again while live documents still carry it: their values are open
+                kind = "AddField(carried: open values)" if any(op["f"] in v for v in prev["docs"].values()) else "AddField(unused)"
+            if kind.startswith(("AddDoc", "RemoveDoc")) and any(p[0] == op["d"] for p in prev.get("open", [])):
+                kind += " of a document with open values"
             c[kind] = c.get(kind, 0) + 1
     return c
 
@@ -537,7 +639,7 @@ def volume_probe(ctx, sizes):
             d = "v%04d" % j
             docs[d] = {"f": ["n", j - n // 2]}
             steps.append(dict(op="AddDoc", d=d, v=docs[d]))
-        st = dict(fields=["f"], docs=docs)
+        st = dict(fields=["f"], docs=docs, open=[])
         k = skey(st)
         states[k] = st
         behaviours.append(Beh(steps, [(None, None)] * (len(steps) - 1) + [(k, st)], obs_last(len(steps)),
@@ -580,16 +682,26 @@ def volume_probe(ctx, sizes):
 B = ("halves", "batch")   # documents written with AddDocTx on a write-only batch (kvgraph's way)
 H, X = ("halves", None), ("extreme", None)
 PLAN = {
-    "quick": dict(exh=[("KVIndex_q1.cfg", [H]), ("KVIndex_q2.cfg", [H, B])],
+    # _qo/_to: deeper, over one field, two documents and two terms, only the histories that meet open values
+    "quick": dict(exh=[("KVIndex_q1.cfg", [H]), ("KVIndex_q2.cfg", [H, B]), ("KVIndex_qo.cfg", [H, B])],
                   sim=[("KVIndex_sim.cfg", 100, [H, X]), ("KVIndex_simnr.cfg", 60, [B])], volume=[120, 150]),
-    "thorough": dict(exh=[("KVIndex_t0.cfg", [H]), ("KVIndex_q1.cfg", [X]), ("KVIndex_t1.cfg", [H]), ("KVIndex_t2.cfg", [H, B])],
+    "thorough": dict(exh=[("KVIndex_t0.cfg", [H]), ("KVIndex_q1.cfg", [X]), ("KVIndex_t1.cfg", [H]), ("KVIndex_t2.cfg", [H, B]),
+                          ("KVIndex_to.cfg", [H, B])],
                      sim=[("KVIndex_simt.cfg", 400, [H, X]), ("KVIndex_simnr.cfg", 200, [B])], volume=[120, 150]),
 }
 
+FILTERED = ("KVIndex_qo.cfg", "KVIndex_to.cfg")
+
 ASSUMPTIONS = [
-    "documents only carry paths that are registered when the document is added, and a path is (re-)registered only while no "
-    "live document carries it: what the index holds for documents added before a field was registered is left open by the "
-    "property (\"currently live documents\")",
+    "documents only carry paths that are registered when the document is added.  A path may be removed and registered again "
+    "while live documents carry it; the value such a document has for the path is OPEN until the document is added again "
+    "or removed: whether the index reports values that were there before a (re-)registration is not stated by the property "
+    "(kvgraph: 'TODO reindex existing data').  Every query call may then count any subset of the open values: its answer "
+    "must be the scan over the documents whose value is firm (path registered when the document was last added and not "
+    "removed since) plus some subset of the open ones, chosen per call.  In a state without open values the comparison is exact",
+    "KVIndex_qo/_to go deeper (length 6/7, one path, two documents, one string and one number term, RemoveDoc of live ids "
+    "only) and replay exactly the histories that meet an open value under a registered path; their batch-write variant "
+    "leaves out the histories that replace a document (the known finding of that path would hide anything after it)",
     "queries on a path that is not registered are only probed for termination, their answers are not compared",
     "AddField of a registered path and RemoveField of an unregistered one are not generated",
     "FieldTermNumberRange(lo,hi): numbers strictly inside must be reported, numbers outside [lo,hi] must not; whether a number "
@@ -626,22 +738,26 @@ def _run(ctx):
         plan = dict(exh=[e for e in plan["exh"] if keep(e[0])], sim=[e for e in plan["sim"] if keep(e[0])],
                     volume=plan["volume"] if keep("KVIndex_vol.cfg") else [])
         ctx.notes.append("partial run: C09_ONLY=%s" % only)
-    tot = dict(behaviours=0, observations=0, nontrivial=0, queries=0)
+    tot = dict(behaviours=0, observations=0, nontrivial=0, queries=0, met_open=0)
     parts = []
 
     def account(name, emb, r, info):
         for k in tot:
-            tot[k] += r[k]
-        parts.append(dict(cfg=name, embedding=emb, **dict(info, **{k: r[k] for k in ("behaviours", "observations", "divergent")})))
+            tot[k] += r.get(k, 0)
+        parts.append(dict(cfg=name, embedding=emb, **dict(info, **{k: r.get(k, 0) for k in ("behaviours", "observations", "met_open", "divergent")})))
 
     for cfg, embs in plan["exh"]:
         uni, states, behaviours, info = gen_exhaustive(ctx, cfg)
         answers = run_oracle(ctx, cfg, states, label="oracle " + cfg)
-        ctx.log("%s: %d histories (all up to length %d), %d abstract states, %d replays" % (
-            cfg, info["histories"], info["maxlen"], len(states), len(behaviours)))
+        ctx.log("%s: %d histories (all %sup to length %d), %d abstract states, %d replays" % (
+            cfg, info["histories"], "that meet open values, " if cfg in FILTERED else "", info["maxlen"], len(states),
+            len(behaviours)))
         for emb, via in embs:
             # the batch-write variant replays every history with the queries after its last step only
             sel = behaviours if via is None else [b for b in behaviours if b.sched == "only after the last step"]
+            if via == "batch" and cfg in FILTERED:
+                # replacing a document through a write-only batch is the known finding of that path
+                sel = [b for b in sel if not replaces(b)]
             r = replay_and_compare(ctx, cfg.split(".")[0].replace("KVIndex_", ""), uni_norm(uni), sel, answers,
                                    emb=emb, via=via)
             account(cfg, emb, r, dict(info, exhaustive=True, written_with=via or "AddDoc"))
@@ -676,12 +792,14 @@ def _run(ctx):
         account("KVIndex_vol.cfg n=%s" % plan["volume"], "halves", r, dict(histories=len(plan["volume"]), exhaustive=False))
     ctx.cov.update(
         evaluations=tot["queries"], distinct_nontrivial=tot["nontrivial"], traces_validated_against_impl=tot["behaviours"],
-        observations=tot["observations"], exhaustive=True, runs=parts,
+        observations=tot["observations"], behaviours_observing_open_values=tot["met_open"], exhaustive=True, runs=parts,
         rule="evaluations = public query calls compared (per observation and universe field: GetTermMatch per universe term, "
              "FieldTerms x2, FieldNumbers, FieldTermNumberMin, FieldTermNumberMax, one FieldTermNumberRange per limit pair, "
              "FieldStringTermCounts, FieldTermCounts x2); distinct_nontrivial = replayed (history, observation schedule) pairs in "
-             "which some observed state has a live document under a registered field; exhaustive = every history of the "
-             "exhaustive cfgs up to their length bound is replayed (random walks and the volume probe are samples)")
+             "which some observed state has a live document under a registered field; behaviours_observing_open_values = those "
+             "in which some observed state has an open value under a registered path (comparison against the accepted answer "
+             "sets); exhaustive = every history of the exhaustive cfgs up to their length bound is replayed, for KVIndex_qo/_to "
+             "every history that meets an open value (random walks and the volume probe are samples)")
     ctx.assumptions += ASSUMPTIONS
 
 
